@@ -147,8 +147,14 @@ def run(repo: Repo, rep: Report, tier: str) -> None:
     srca = [norm(s) for s in walk_no_nested(na) if isinstance(s, ast.stmt)]
     ok = any(s.startswith("negotiated_contexts = negotiate_as_requestor(self.requestor.requested_contexts, rsp.presentation_context_definition_results_list, ac_roles)") for s in srca)
     ok = ok and "ac_roles = {uid: (ii.scu_role, ii.scp_role) for uid, ii in self.acceptor.role_selection.items()}" in srca
-    ok = ok and "self.assoc._accepted_cx = {cast(int, cx.context_id): cx for cx in negotiated_contexts if cx.result == 0}" in srca and "self.assoc._rejected_cx = [cx for cx in negotiated_contexts if cx.result != 0]" in srca
-    rep.check(ok, "requestor-view", "acse.ACSE._negotiate_as_requestor", "negotiate_as_requestor(requested, AC results, AC roles); accepted = result 0", "the requestor's view must be computed from the received results and role replies, every context landing in accepted or rejected", mod=acse, node=na)
+    rep.check(ok, "requestor-view", "acse.ACSE._negotiate_as_requestor", "negotiate_as_requestor(requested, AC results, AC roles)", "the requestor's view must be computed from the received results and role replies", mod=acse, node=na)
+    from ..nego_eval import eval_context_partition
+    from ..minipy import Unsupported as _Unsup
+    try:
+        probs, n_sites = eval_context_partition(repo, na)
+        rep.check(n_sites >= 1 and not probs, "requestor-view", "acse.ACSE._negotiate_as_requestor", probs[0][0] if probs else "accepted = result 0, rejected = the rest", f"every negotiated context must land in exactly one of the accepted / rejected tables, the accepted one exactly for result 0 (evaluated for the result codes 0..4, 5, 255 and None){': ' + probs[0][1] if probs else ''}", mod=acse, node=probs[0][0] if probs else na)
+    except _Unsup as exc:
+        rep.defer(f"acse.ACSE._negotiate_as_requestor: the accepted / rejected partition could not be evaluated ({exc})")
 
     # ---- wire leg ------------------------------------------------------------------------------------
     sp = json.loads((VERIF / "spec" / "ps3_8_pdu_layout.json").read_text())
